@@ -433,9 +433,13 @@ package schema
 //@   property C20
 //@   requires isDefinedType(x)
 //@   ensures !softEq("", x) && !softEq(x, "")
+//- symmetry of the implementation follows from its contract; the pair (null, array) is excluded: there the contract's
+//- postcondition is a recorded known finding (IsEqualSoft(null, array) is true, IsEqualSoft(array, null) is false), and a
+//- contract used as an axiom is used without the finding's region
 //@ lemma isEqualSoftSymmetric(t SchemaType, x SchemaType)
 //@   property C20
 //@   requires isDefinedType(t) && isDefinedType(x)
+//@   requires !(t == "null" && x == "array") && !(t == "array" && x == "null")
 //@   ensures pure("(SchemaType).IsEqualSoft", t, x) == pure("(SchemaType).IsEqualSoft", x, t)
 
 // ---- GuessSchemaType (C20, C09, C17) ----------------------------------------------------------------------
